@@ -455,6 +455,8 @@ pub enum Case {
     Locktime { reqs: Vec<Req>, fallback: Option<u32>, hop: Option<HopPlan> },
     Uid { tx: TxSpec, from_tx: bool, ops: Vec<UidOp> },
     Extract { pset: PsetSpec },
+    /// ELIP-100 / ELIP-102 metadata set through the accessors, carried over a hand-over, read back
+    Elip { pset: PsetSpec, seed: u64, hop: HopPlan },
     Merge(merge::MergeCase),
     Blind(blind::BlindCase),
 }
@@ -532,6 +534,11 @@ impl World for PsetFlowWorld {
                 Case::Uid { tx, from_tx: p.coin(), ops: (0..n).map(|_| UidOp::draw(p, faulty)).collect() }
             }
             "extract" => Case::Extract { pset: PsetSpec::draw(p) },
+            "elip" => {
+                let mut ps = PsetSpec::draw(p);
+                ps.elip = false;
+                Case::Elip { pset: ps, seed: p.u64(), hop: HopPlan::draw(p, faulty) }
+            }
             "merge" => Case::Merge(merge::MergeCase::draw(p, faulty)),
             "blind" => Case::Blind(blind::BlindCase::draw(p, faulty)),
             _ => panic!("unknown scenario {}", scenario),
@@ -657,6 +664,88 @@ impl World for PsetFlowWorld {
                 let ps = psetgen::pset(pset);
                 check_extract(ctx, &ps);
             }
+            Case::Elip { pset, seed, hop: hp } => {
+                use elements::pset::elip100::{AssetMetadata, TokenMetadata};
+                ctx.sig("elip");
+                ctx.nontrivial = true;
+                let mut ps = psetgen::pset(pset);
+                let mut p = Prng::from_u64(*seed);
+                let mut assets = Vec::new();
+                let mut tokens = Vec::new();
+                for _ in 0..p.urange(1, 3) {
+                    let id = gen::asset_id(&mut p);
+                    let n = p.usize_below(80);
+                    let contract: String = (0..n).map(|_| if p.chance(1, 10) { 'é' } else { (b' ' + p.below(90) as u8) as char }).collect();
+                    let prevout = OutPoint::new(gen::txid(&mut p), p.u32());
+                    let first = ps.add_asset_metadata(id, &AssetMetadata::new(contract.clone(), prevout));
+                    ctx.check(first.is_none(), "C07.elip", "add-returned-old", || "add_asset_metadata on a fresh asset id returned a previous value".to_string());
+                    if p.chance(1, 3) {
+                        // setting it again returns the previous value and keeps the new one
+                        let again = ps.add_asset_metadata(id, &AssetMetadata::new(contract.clone(), prevout));
+                        ctx.check(matches!(&again, Some(Ok(m)) if m.contract() == contract && m.issuance_prevout() == prevout), "C07.elip", "replace", || "add_asset_metadata did not return the value it replaced".to_string());
+                    }
+                    assets.push((id, contract, prevout));
+                }
+                for _ in 0..p.urange(0, 2) {
+                    let id = gen::asset_id(&mut p);
+                    let aid = gen::asset_id(&mut p);
+                    let bl = p.coin();
+                    ps.add_token_metadata(id, &TokenMetadata::new(aid, bl));
+                    tokens.push((id, aid, bl));
+                }
+                let mut in_abfs = Vec::new();
+                for i in ps.inputs_mut() {
+                    if p.coin() {
+                        let a = gen::abf(&mut p);
+                        i.set_abf(a);
+                        in_abfs.push(Some(a));
+                    } else {
+                        in_abfs.push(None);
+                    }
+                }
+                let mut out_abfs = Vec::new();
+                for o in ps.outputs_mut() {
+                    if p.coin() {
+                        let a = gen::abf(&mut p);
+                        o.set_abf(a);
+                        out_abfs.push(Some(a));
+                    } else {
+                        out_abfs.push(None);
+                    }
+                }
+                ctx.sig_n("n", (assets.len() + 4 * tokens.len()) as u64);
+                let Some(rx) = hop(ctx, &ps, hp) else { return };
+                for (id, contract, prevout) in &assets {
+                    let got = ctx.call("Pset::get_asset_metadata", 0, || rx.get_asset_metadata(*id));
+                    ctx.check(matches!(&got, Some(Some(Ok(m))) if m.contract() == contract && m.issuance_prevout() == *prevout), "C07.elip", "asset-metadata", || format!("asset metadata set through the accessor reads back as {:?} after a hand-over", got));
+                }
+                for (id, aid, bl) in &tokens {
+                    let got = ctx.call("Pset::get_token_metadata", 0, || rx.get_token_metadata(*id));
+                    ctx.check(matches!(&got, Some(Some(Ok(m))) if m.asset_id() == aid && m.issuance_blinded() == *bl), "C07.elip", "token-metadata", || format!("token metadata set through the accessor reads back as {:?} after a hand-over", got));
+                }
+                // an id that was never set reads back as absent
+                let other = gen::asset_id(&mut p);
+                ctx.check(rx.get_asset_metadata(other).is_none() && rx.get_token_metadata(other).is_none(), "C07.elip", "phantom", || "metadata reported for an asset id that was never set".to_string());
+                for (k, a) in in_abfs.iter().enumerate() {
+                    let got = rx.inputs()[k].get_abf();
+                    let ok = match (a, &got) {
+                        (Some(x), Some(Ok(y))) => x == y,
+                        (None, None) => true,
+                        // the generated ancestor never carries a liquidex abf of its own (elip = false)
+                        _ => false,
+                    };
+                    ctx.check(ok, "C07.elip", "input-abf", || format!("input {} abf set {:?}, read back {:?}", k, a, got));
+                }
+                for (k, a) in out_abfs.iter().enumerate() {
+                    let got = rx.outputs()[k].get_abf();
+                    let ok = match (a, &got) {
+                        (Some(x), Some(Ok(y))) => x == y,
+                        (None, None) => true,
+                        _ => false,
+                    };
+                    ctx.check(ok, "C07.elip", "output-abf", || format!("output {} abf set {:?}, read back {:?}", k, a, got));
+                }
+            }
             Case::Merge(m) => merge::execute(m, ctx),
             Case::Blind(b) => blind::execute(b, ctx),
         }
@@ -702,6 +791,7 @@ impl World for PsetFlowWorld {
                 out
             }
             Case::Extract { pset } => pset.shrinks().into_iter().map(|s| Case::Extract { pset: s }).collect(),
+            Case::Elip { pset, seed, hop } => pset.shrinks().into_iter().map(|s| Case::Elip { pset: s, seed: *seed, hop: hop.clone() }).collect(),
             Case::Merge(m) => merge::shrink(m, v).into_iter().map(Case::Merge).collect(),
             Case::Blind(b) => blind::shrink(b, v).into_iter().map(Case::Blind).collect(),
         }
